@@ -43,7 +43,10 @@ JSON_KINDS = [("null", None), ("true", True), ("zero", 0), ("one", 1), ("minus1"
               ("empty_list", []), ("list", ["x"]), ("empty_dict", {}), ("dict", {"x": "x"}), ("deep100", deep(100)),
               ("nonascii", "ключ é"), ("surrogate", "\ud800"), ("int400", 10 ** 400), ("negint400", -(10 ** 400)), ("float300", 1e300),
               ("int_2_53", 2 ** 53 + 1), ("braces", "{}"), ("fmt_field", "{role}"), ("fmt_attr", "{0.__class__}"), ("percent", "%s %(x)d %"),
-              ("nul", "a\x00b"), ("long_str", "x" * 100000)]
+              ("nul", "a\x00b"), ("long_str", "x" * 100000),
+              # containers whose LENGTH equals that of a fingerprint / key / signature string, made of single hex characters
+              ("list40", list("0a" * 20)), ("list64", list("0a" * 32)), ("list128", list("0a" * 64)), ("dict40", {"%02d" % i: None for i in range(40)}),
+              ("dict_hexchars", dict.fromkeys("0123456789abcdef")), ("list2_hexchars", ["0", "4"])]
 PY_KINDS = [("bytes", b"ab" * 32), ("bytearray", bytearray(b"ab")), ("tuple", ("x",)), ("set", {"x"}), ("frozenset", frozenset({"x"})),
             ("complex", 1j), ("decimal", decimal.Decimal("1")), ("fraction", fractions.Fraction(1, 1)), ("object", object()),
             ("strsub", StrSub("ab" * 32)), ("intsub", IntSub(1)), ("dictsub", DictSub()), ("timedelta", datetime.timedelta(1))]
@@ -215,6 +218,16 @@ def single_mutations(args, r, py_kinds=True):
                 except Exception:  # noqa: BLE001
                     continue
                 yield (ai, p, kname), args[:ai] + [new] + args[ai + 1:]
+            orig = get_at(arg, p) if is_json else arg
+            if isinstance(orig, str) and orig:
+                # type confusion that keeps the characters: the string as an array / object of its characters
+                for kname, kval in (("as_char_list", list(orig)), ("as_char_dict", dict.fromkeys(orig)), ("as_char_tuple", tuple(orig)), ("as_bytes", orig.encode("utf-8", "surrogatepass"))):
+                    if kname in ("as_char_tuple", "as_bytes") and not py_kinds:
+                        continue
+                    try:
+                        yield (ai, p, kname), args[:ai] + [replace_at(arg, p, kval)] + args[ai + 1:]
+                    except Exception:  # noqa: BLE001
+                        pass
             if p:
                 yield (ai, p, "absent"), args[:ai] + [replace_at(arg, p, None, delete=True)] + args[ai + 1:]
                 for s in siblings(arg, p):
